@@ -1046,6 +1046,9 @@ func parse_process_loop(tokens []*Token, index int) (AstProcessStatement, int, e
 
 func parse_process_expression(tokens []*Token, index int) (AstProcessExpression, int, error) {
 	exprTokens, next_index := getProcessExpressionTokens(tokens, index)
+	if len(exprTokens) == 0 {
+		return nil, next_index, NewParseError(tokens[next_index], "Unexpected token. Expected an expression.")
+	}
 	expr, fail_index, err := parse_expr_pratt(exprTokens, 0, 0)
 	if err != nil {
 		return nil, index + fail_index, err
@@ -1054,6 +1057,9 @@ func parse_process_expression(tokens []*Token, index int) (AstProcessExpression,
 }
 
 func parse_expr_pratt(tokens []*Token, index int, minPrecedence int) (AstProcessExpression, int, error) {
+	if index >= len(tokens) {
+		return nil, index, NewParseError(tokens[len(tokens)-1], "Unexpected end of expression. Expected string, number, variable, or unary operator")
+	}
 	token_index := index + 1
 	var lhs AstProcessExpression
 	if tokens[index].TokenType == STRING {
@@ -1075,8 +1081,8 @@ func parse_expr_pratt(tokens []*Token, index int, minPrecedence int) (AstProcess
 		if err != nil {
 			return nil, next_index, err
 		}
-		if tokens[next_index].TokenType != CLOSEPAREN {
-			return nil, next_index, err
+		if next_index >= len(tokens) || tokens[next_index].TokenType != CLOSEPAREN {
+			return nil, next_index, NewParseError(tokens[len(tokens)-1], "Unexpected end of expression. Expected ')'")
 		}
 		token_index = next_index + 1
 		lhs = subexpr
@@ -1132,7 +1138,7 @@ func getProcessExpressionTokens(tokens []*Token, index int) ([]*Token, int) {
 }
 
 func isProcessExprEnd(tokenType TokenType) bool {
-	return tokenType == SET || tokenType == THEN || tokenType == IF || tokenType == ELSE || tokenType == END || tokenType == DEBUG || tokenType == RETURN || tokenType == LOOP || tokenType == BREAK || tokenType == CONTINUE
+	return tokenType == EOF || tokenType == SET || tokenType == THEN || tokenType == IF || tokenType == ELSE || tokenType == END || tokenType == DEBUG || tokenType == RETURN || tokenType == LOOP || tokenType == BREAK || tokenType == CONTINUE
 }
 
 func isPrefixOp(tokenType TokenType) bool {
